@@ -86,3 +86,22 @@ Print Assumptions C16_oversize.
 Print Assumptions C16_tc_identical.
 Print Assumptions C16_tc_timer.
 Print Assumptions C16_tc_query.
+
+(* ---- the model's comparisons are the ones the source writes now (Gen/Sites.v is regenerated from /repo on every run) ---- *)
+From ZC Require Import Gen.Const Gen.Sites Proofs.Sites_C16.
+Theorem C16_site_duplicate_guard : forall s data now,
+  is_duplicate s data now =
+  opt_bytes_eqb (ls_data s) data
+  && sop_apply site_listener_dup_window (now - C_DUPLICATE_PACKET_SUPPRESSION_INTERVAL) (ls_last_time s)
+  && match ls_last_msg s with Some has_qu => negb has_qu | None => false end.
+Proof. exact tie_is_duplicate. Qed.
+Theorem C16_site_oversize : forall s m addr now he tc,
+  (sop_apply site_listener_oversize (Z.of_nat (length (lm_data m))) site_listener_oversize_rhs = true ->
+   datagram s m addr now he tc = (s, OOversize)) /\
+  (snd (datagram s m addr now he tc) = OOversize ->
+   sop_apply site_listener_oversize (Z.of_nat (length (lm_data m))) site_listener_oversize_rhs = true).
+Proof. intros; split; [apply tie_oversize_drops | apply tie_oversize_only]. Qed.
+Theorem C16_site_counts : sites_C16_counts. Proof. exact sites_C16_counts_ok. Qed.
+Print Assumptions C16_site_duplicate_guard.
+Print Assumptions C16_site_oversize.
+Print Assumptions C16_site_counts.
